@@ -275,6 +275,23 @@ def run_seq_engine(res, flavour, mode, kinds, profiles, cases_per_kind, seed, ta
         start = 0
         outs = []
         restarts = 0
+        vf = base + ".viol"
+        if os.path.exists(vf):
+            os.remove(vf)
+
+        def read_viol():
+            # violations are appended by the driver as it finds them, so those found before a later crash survive
+            vs = []
+            if os.path.exists(vf):
+                for ln in open(vf):
+                    ln = ln.strip()
+                    if ln:
+                        try:
+                            vs.append(json.loads(ln))
+                        except ValueError:
+                            pass
+            return vs
+
         while True:
             out, jr, hs = base + ".json", base + ".journal", base + ".hashes%d" % restarts
             for f in (out,):
@@ -283,7 +300,7 @@ def run_seq_engine(res, flavour, mode, kinds, profiles, cases_per_kind, seed, ta
             cmd = [binp, "--mode", mode, "--kind", kind, "--profiles", ",".join(profiles), "--cases", str(cases_per_kind),
                    "--seed", str(seed), "--tag", tag, "--worker", str(w), "--nworkers", str(nw), "--start", str(start),
                    "--nops", "%d:%d" % nops, "--typesets", str(typesets), "--ts", str(ts), "--trigger-any", hex(trigger_any),
-                   "--trigger-all", hex(trigger_all), "--samples", str(samples), "--journal", jr, "--out", out, "--hashes", hs]
+                   "--trigger-all", hex(trigger_all), "--samples", str(samples), "--journal", jr, "--out", out, "--hashes", hs, "--viol-file", vf]
             if noinsr:
                 cmd.append("--noinsr")
             cmd += ["--case-timeout", str((20 + nops[1] // 50) * (40 if valgrind else 1))]
@@ -298,7 +315,9 @@ def run_seq_engine(res, flavour, mode, kinds, profiles, cases_per_kind, seed, ta
                 outs.append(("watchdog", kind, None, None))
                 return outs
             if r.returncode == 0 and os.path.exists(out):
-                outs.append(("ok", kind, json.load(open(out)), hs))
+                d = json.load(open(out))
+                d["violations"] = read_viol()
+                outs.append(("ok", kind, d, hs))
                 return outs
             # crashed inside a case: keep the journal as the witness, then resume after that case
             journal = open(jr).read() if os.path.exists(jr) else ""
@@ -306,7 +325,11 @@ def run_seq_engine(res, flavour, mode, kinds, profiles, cases_per_kind, seed, ta
             outs.append(("crash", kind, {"what": what, "journal": journal, "stderr": r.stderr[-6000:], "flavour": flavour, "mode": mode}, None))
             m = re.search(r"case_index=(\d+)", journal)
             hangs = sum(1 for o in outs if o[0] == "crash" and o[2]["what"] == "hang")
-            if what == "harness" or not m or restarts >= 12 or hangs >= 2:
+            if what == "harness" or not m or restarts >= 400 or hangs >= 2:
+                vs = read_viol()
+                if vs:
+                    # the worker never finished: hand over what it had found (counters of the lost segments are not known)
+                    outs.append(("partial", kind, {"mode": mode, "kind": kind, "violations": vs}, None))
                 return outs
             start = int(m.group(1)) + 1
             restarts += 1
@@ -322,6 +345,15 @@ def run_seq_engine(res, flavour, mode, kinds, profiles, cases_per_kind, seed, ta
                             data = fh.read()
                         a.frombytes(data[: len(data) // 8 * 8])
                         res.nontrivial_hashes.update(a)
+                elif status == "partial":
+                    for v in payload["violations"]:
+                        v = dict(v)
+                        v["kind"] = kind
+                        v["mode"] = payload["mode"]
+                        v["flavour"] = flavour
+                        res.violations.append(v)
+                        for t in v.get("tags", []):
+                            res.tags[t] = res.tags.get(t, 0) + 1
                 elif status == "crash":
                     payload["kind"] = kind
                     res.crashes.append(payload)
